@@ -4,7 +4,7 @@
 wt=$1; id=$2; prop=$3; needs=$4; shift 4
 export GOFLAGS=-mod=mod GOPROXY=off GOSUMDB=off GOTOOLCHAIN=local
 cd $wt || exit 2
-demo=$(git status --porcelain | grep '_test.go' | awk '{print $2}' | head -1)
+demo=$(git status --porcelain | grep '_test\.go$' | awk '{print $2}' | head -1)
 [ -z "$demo" ] && { echo "no demo test found"; exit 2; }
 pkg=./$(dirname $demo)
 go build ./... || { echo "does not build"; exit 2; }
